@@ -23,6 +23,7 @@ import QV.Model.Callbacks
 import QV.Lemmas.Callbacks
 
 namespace QV.Props
+namespace C17
 open QV QV.Cb
 
 variable {W V X P M Msg : Type}
@@ -758,4 +759,5 @@ example : StatsWF ([("sx", [("mean", 1), ("variance", 2), ("std_error", 3), ("nu
 example : stripPlural "means" = "mean" ∧ stripPlural "std_errors" = "std_error" ∧
     stripPlural "num_samples" = "num_sample" ∧ stripPlural "variance" = "variance" := by decide
 
+end C17
 end QV.Props
